@@ -330,13 +330,14 @@ def runOp (d : EnumDef) (args : List String) : String :=
     match genTable d with
     | .error e => showTableErr e
     | .ok t =>
+      if hasDupKey t.fields then "CE:dupField" else   -- rustc: duplicate struct field (E0124)
       match runTableHistory d t (t.filled 0) toks with
       | none => "PANIC"
       | some outs => String.intercalate " " outs
   | ["tablefields"] =>
     match genTable d with
     | .error e => showTableErr e
-    | .ok t => String.intercalate " " (t.fields.map encodeStr)
+    | .ok t => if hasDupKey t.fields then "CE:dupField" else String.intercalate " " (t.fields.map encodeStr)
   | ["is", k] =>
     match findVariant d k with
     | none => "bad-op"
